@@ -1,6 +1,6 @@
 # -*- coding: utf-8 -*-
 """C09 Buying power: orders are covered by cash, reserved cash is conserved."""
-from checks import acct_prop
+from checks import acct_prop, acct, ordering
 
 
 def gen(rng, tier):
@@ -15,9 +15,11 @@ def gen(rng, tier):
 
 
 globals().update(acct_prop.make(
-    'C09', components=['frozen.', 'reserve.amount', 'trade.'], clauses=['C09.'], gen=gen, coq=['Proofs/ReserveFacts.v', 'Gen/Reserve.v', 'Model/Broker.v', 'Proofs/BrokerFacts.v', 'Gen/BrokerProg.v'], gen_mods=['Costs', 'Reserve', 'BrokerProg'],
+    'C09', components=['frozen.', 'reserve.amount', 'trade.', 'validate.verdict'], clauses=['C09.'], gen=gen,
+    analyser=acct_prop.combine(acct.analyse, ordering.analyse), prelude=acct_prop.COMBINED_PRELUDE,
+    coq=['Model/Sizing.v', 'Model/Validators.v', 'Proofs/ValidatorsFacts.v', 'Gen/ValidatorChain.v', 'Proofs/ReserveFacts.v', 'Gen/Reserve.v', 'Model/Broker.v', 'Proofs/BrokerFacts.v', 'Gen/BrokerProg.v'], gen_mods=['Costs', 'Reserve', 'BrokerProg', 'ValidatorChain'],
     rule=('random scenarios with many concurrent limit and market orders, partial fills under volume caps (daily auction + bar, minute bars), '
           'cancels of resting and of final orders, matcher-side rejects and end-of-day expiry; a case is one recorded order event or trade '
-          '(reserve amount, reserve on PENDING_NEW, release on trade / cancel / reject / expiry) replayed through the Coq model; distinct '
+          '(reserve amount, reserve on PENDING_NEW, release on trade / cancel / reject / expiry) or the verdict of the validator chain (cash check against available cash) on an order that reached it, replayed through the Coq model; distinct '
           'non-trivial = distinct (event kind x order status x partly filled x instrument kind x effect) classes'),
     assumptions=['float64 rounding not modelled', 'the broker protocol hypothesis of C09_frozen_invariant is what C04 checks on the same runs']))
